@@ -6,6 +6,10 @@ package policy
 import (
 	"strconv"
 
+	zzmem "github.com/gittuf/gittuf/internal/zzmem"
+	"github.com/gittuf/gittuf/pkg/githash"
+	"github.com/gittuf/gittuf/pkg/rsl"
+
 	verif "github.com/gittuf/gittuf/internal/zzverif"
 )
 
@@ -170,4 +174,74 @@ func HarnessC07Deferred() {
 	} else {
 		verif.Reach("rejected")
 	}
+}
+
+// HarnessC07DeferredAttestation: like HarnessC07Deferred, but what is met
+// while searching for the fix is an attestations entry: the approval that the
+// push after the recovery needs.  protect-main has threshold 2; the last push
+// (by key0) reaches it only with the authorization signed by key1, which is
+// recorded at a symbolic place: before the violation, between the violation
+// and its revocation, between the revocation and the fix, after the fix -- or
+// not at all.
+func HarnessC07DeferredAttestation() {
+	w := zzNewWorld()
+	spec := zzBasePolicy([]int{0, 1, 2}, nil)
+	spec.rules[0].threshold = 2
+	zzMust(w.zzStageAndApply(spec, w.zzBuildState(spec, []int{0}, []int{0}), 0))
+
+	record := func(commit githash.Hash, signer int) {
+		w.S.SetRef(zzMain, commit)
+		w.tips[zzMain] = commit
+		w.S.Signer = signer
+		zzMust(rsl.NewReferenceEntry(zzMain, commit).Commit(w.S, true))
+	}
+	// the commits, made up front so that approvals can name them
+	t1, t2, t3 := w.zzTree(1), w.zzTree(2), w.zzTree(3)
+	c1 := w.S.RawCommit("", t1, nil, "good", zzmem.Unsigned)
+	c2 := w.S.RawCommit("", t2, []githash.Hash{c1}, "violation", zzmem.Unsigned)
+	fixTree := t1
+	if verif.ConcreteBool(verif.Bool("fix.othertree")) {
+		fixTree = t3 // not a fix: does not restore the last good tree
+	}
+	c3 := w.S.RawCommit("", fixTree, []githash.Hash{c2}, "fix", zzmem.Unsigned)
+	c4 := w.S.RawCommit("", w.zzTree(4), []githash.Hash{c3}, "after", zzmem.Unsigned)
+	approve := func() {
+		zzMust(w.zzAuthorizeConcrete([3]string{zzMain, c3.String(), w.zzTree(4).String()}, []int{1}))
+	}
+	at := verif.Concrete(verif.Choice("approval.at", 5)) // 4 = never
+
+	// first push: key0 plus an authorization by key1
+	zzMust(w.zzAuthorizeConcrete([3]string{zzMain, githash.ZeroHash.String(), t1.String()}, []int{1}))
+	record(c1, 0)
+	if at == 0 {
+		approve()
+	}
+	record(c2, 0) // violation: one principal only (no authorization)
+	badEntry := w.S.Ref(rsl.Ref)
+	if at == 1 {
+		approve()
+	}
+	revoked := verif.ConcreteBool(verif.Bool("revoked"))
+	if revoked {
+		w.S.Signer = 1
+		zzMust(rsl.NewAnnotationEntry([]githash.Hash{badEntry}, true, "revoke").Commit(w.S, true))
+	}
+	if at == 2 {
+		approve()
+	}
+	record(c3, zzmem.Unsigned) // the fix needs no authority of its own
+	if at == 3 {
+		approve()
+	}
+	record(c4, 0)
+
+	_, err := zzVerifyFull(w, zzMain)
+	want := revoked && fixTree.Equal(t1) && at != 4
+	if err == nil {
+		verif.Reach("accepted")
+	} else {
+		verif.Reach("rejected")
+		verif.Observe("error", err.Error())
+	}
+	verif.Assert((err == nil) == want, "verdict-matches-recovery-rules-with-the-approval-recorded-anywhere-before-its-push")
 }
